@@ -319,6 +319,13 @@ pub fn run(tier: Tier) {
     let mut ctx = Ctx::new("C05", tier);
     one_variant::<V512>(&mut ctx, tier);
     one_variant::<V1024>(&mut ctx, tier);
+    crate::history::differential(&mut ctx, "history_differential_round_trips", &["D512", "D1024", "S512", "S1024"], 2, &|op, digest| {
+        if op.starts_with('D') && !(digest.contains("equal=true") && digest.contains("reenc=true") && digest.contains("verifies=true") && digest.contains("pk_roundtrip=true")) {
+            Some("serialisation round trip or sign-after-decode failed".to_string())
+        } else {
+            None
+        }
+    });
     ctx.sample(json!({"variant":512,"seed":"LE64(0)||0^24","sizes":[1281,897,666]}));
     ctx.assume("the per-field loops of the key codecs are data-independent, so varying one field at a time covers every representable key up to which other fields surround it");
     ctx.assume("other seeds than the window: bounded; the window contains the seeds on which key generation was found to leave the encodable range");
@@ -326,6 +333,9 @@ pub fn run(tier: Tier) {
 }
 
 pub fn replay(case: &Value) -> Result<Option<String>, String> {
+    if case.get("kind").and_then(|k| k.as_str()) == Some("history") {
+        return crate::history::replay(case);
+    }
     let kind = case.get("kind").and_then(|k| k.as_str()).ok_or("no kind")?;
     let variant = case.get("variant").and_then(|x| x.as_u64()).ok_or("variant")?;
     let mut t = Tally::default();
